@@ -3,25 +3,6 @@ from .core import *
 
 BOUNDS = {"quick": dict(depth=2, random=30000, all_ops=False), "thorough": dict(depth=2, random=600000, all_ops=True)}
 
-def rs2v(kernel=None):
-    """Tie 1: regenerate coq/gen from /repo's current source.  Returns (ok, log) for the named kernel
-    (check_excess_parentheses | exit_ops | option_tables), or for all of them when none is named: a kernel that leaves
-    the translator's subset must only fail the checks that are built on it."""
-    with Lock("cargo-rs2v"):
-        lock = os.path.join(ROOT, "rs2v", "Cargo.lock")
-        if not os.path.exists(lock):
-            import shutil; shutil.copy(os.path.join(REPO, "Cargo.lock"), lock)
-        sh(["cargo", "build", "--release", "--offline", "--target-dir", os.path.join(CACHE, "target-rs2v")], cwd=os.path.join(ROOT, "rs2v"), timeout=1500)
-    with Lock("coq"):
-        r = sh([os.path.join(CACHE, "target-rs2v", "release", "rs2v"), REPO, os.path.join(COQ, "gen")], check=False)
-    if kernel is None:
-        return r.returncode == 0, r.stdout
-    for l in r.stdout.splitlines():
-        w = l.split(" ", 2)
-        if len(w) >= 2 and w[1] == kernel:
-            return w[0] == "TRANSLATED", l
-    return False, "rs2v did not report on %s: %s" % (kernel, r.stdout[-500:])
-
 def run(res):
     b = BOUNDS[res.tier]
     t_ok, t_log = rs2v("check_excess_parentheses")
